@@ -33,6 +33,33 @@ theorem recNl_noNl (off : Nat) (lp : List Nat) (m : List Char) (h : ∀ c ∈ m,
     simp only [recNl, hc, if_false]
     exact ih _ _ (fun d hd => h d (by simp [hd]))
 
+/-! ### the specification of a token's extent
+
+The implementation does not store how many chars a token consumed.  `specExtent l value` is the
+length of the lexeme that starts at `l` (the text from the token's offset on), given the value
+the token reports: a quoted literal runs to its closing quote (or to the end of the text), a
+comment is `;` + its value, everything else is its value. -/
+
+/-- chars of a `'…'` literal after the opening quote, closing quote included (`''` = escaped quote) -/
+def litLen1 : List Char → Nat
+  | [] => 0
+  | [_] => 1
+  | c :: c2 :: r => if c = '\'' then (if c2 = '\'' then 2 + litLen1 r else 1) else 1 + litLen1 (c2 :: r)
+
+/-- chars of a `"…"` literal after the opening quote, closing quote included -/
+def litLen2 : List Char → Nat
+  | [] => 0
+  | c :: r => if c = '"' then 1 else 1 + litLen2 r
+
+def specExtent (l : List Char) (value : List Char) : Nat :=
+  match l with
+  | c :: r =>
+    if c = '\'' then 1 + litLen1 r
+    else if c = '"' then 1 + litLen2 r
+    else if c = ';' then 1 + value.length
+    else value.length
+  | [] => value.length
+
 /-! ### skip_whitespace -/
 
 theorem skipWs_spec (l : List Char) (off : Nat) (lp : List Nat) :
@@ -123,6 +150,26 @@ theorem readStr2_spec (r : List Char) (off : Nat) (lp : List Nat) :
     · simp only [x, List.length_cons]; simp only [eq_self, true_and] at h2 ⊢; rw [h2]; omega
     · simp only [x, recNl]; simp only [eq_self, true_and] at h3 ⊢; rw [h3]
 
+theorem readStr1_len (rec : Bool) (r : List Char) (off : Nat) (lp : List Nat) :
+    (readStr1 rec r off lp).2.2.1 = off + litLen1 r := by
+  fun_induction readStr1 rec r off lp
+  case case1 => simp [litLen1]
+  case case2 off lp r2 x ih => simp only [x, ih, litLen1, if_true]; omega
+  case case3 off lp c2 r2 h => simp [litLen1, h]
+  case case4 off lp => simp [litLen1]
+  case case5 c r off lp h x ih =>
+    simp only [x, ih]
+    cases r with
+    | nil => simp [litLen1]
+    | cons c2 r2 => simp only [litLen1, h, if_false]; omega
+
+theorem readStr2_len (rec : Bool) (r : List Char) (off : Nat) (lp : List Nat) :
+    (readStr2 rec r off lp).2.2.1 = off + litLen2 r := by
+  fun_induction readStr2 rec r off lp
+  case case1 => simp [litLen2]
+  case case2 r off lp => simp [litLen2]
+  case case3 c r off lp h x ih => simp only [x, ih, litLen2, h, if_false]; omega
+
 /-! ### facts about the generated tables (re-checked against the regenerated tables on every build) -/
 
 theorem mem_of_lookup {α β} [BEq α] [LawfulBEq α] (l : List (α × β)) (a : α) (b : β)
@@ -186,6 +233,33 @@ theorem dbl_values_tbl :
 /-- only `#` is dispatched to `read_int_char_literal` (which writes a `#` into the value) -/
 theorem intChar_hash_tbl :
     symDispatch.all (fun p => p.2 != .intChar || p.1 == '#') = true := by decide +kernel
+
+/-- the three characters `specExtent` treats specially are dispatched to the matching readers,
+    and nothing else is -/
+theorem special_tbl :
+    symDispatch.all (fun p =>
+      (p.2 == .strSingle) == (p.1 == '\'') && (p.2 == .strDouble) == (p.1 == '"') &&
+      (p.2 == .comment) == (p.1 == ';')) = true := by decide +kernel
+
+theorem special_of_lookup (c : Char) (a : SymAction) (h : symDispatch.lookup c = some a) :
+    (a = .strSingle ↔ c = '\'') ∧ (a = .strDouble ↔ c = '"') ∧ (a = .comment ↔ c = ';') := by
+  have := List.all_eq_true.mp special_tbl _ (mem_of_lookup _ _ _ h)
+  simp only [Bool.and_eq_true, beq_iff_eq] at this
+  obtain ⟨⟨h1, h2⟩, h3⟩ := this
+  refine ⟨?_, ?_, ?_⟩
+  · constructor <;> intro e <;> simp_all
+  · constructor <;> intro e <;> simp_all
+  · constructor <;> intro e <;> simp_all
+
+theorem wordStart_notSpecial (c : Char) (h : isWordStart c = true) : c ≠ '\'' ∧ c ≠ '"' ∧ c ≠ ';' := by
+  refine ⟨?_, ?_, ?_⟩ <;> (intro e; subst e; revert h; decide)
+
+theorem numStart_notSpecial (c : Char) (h : isNumStart c = true) : c ≠ '\'' ∧ c ≠ '"' ∧ c ≠ ';' := by
+  refine ⟨?_, ?_, ?_⟩ <;> (intro e; subst e; revert h; decide)
+
+theorem specExtent_plain (c : Char) (r v : List Char) (h : c ≠ '\'' ∧ c ≠ '"' ∧ c ≠ ';') :
+    specExtent (c :: r) v = v.length := by
+  simp [specExtent, h.1, h.2.1, h.2.2]
 
 theorem dbl_total (c : Char) (h : symDispatch.lookup c = some .doubleOp) :
     ∃ e, dblTable.lookup c = some e := by
